@@ -72,8 +72,9 @@ func (m *MTProto) SaveSession() (err error) {
 }
 
 func (m *MTProto) LoadSession(s *session.Session) {
-	m.authKey = s.Key
-	m.authKeyHash = s.Hash
+	// the client's key must not change when the owner of s reuses its buffers
+	m.authKey = append([]byte(nil), s.Key...)
+	m.authKeyHash = append([]byte(nil), s.Hash...)
 	m.serverSalt = s.Salt
 	m.addr = s.Hostname
 }
